@@ -17,7 +17,8 @@ use std::sync::Arc;
 
 #[derive(Clone, Debug, Hash, PartialEq, Eq)]
 pub enum DAct {
-    Init(usize, bool),
+    /// base index, form (0 = FlatEx::parse, 1 = DeepEx::parse, 2 = FlatEx::parse_wo_compile)
+    Init(usize, u8),
     Partial(usize),
     /// (variable, order) through partial_nth
     Nth(usize, usize),
@@ -145,6 +146,24 @@ fn occurring(e: &Ex<Fe>, t: &Table) -> Option<Vec<String>> {
         _ => None,
     }
 }
+fn listing_check(e: &Ex<Fe>, t: &Table) -> Result<(), String> {
+    use std::collections::BTreeSet;
+    let text = e.text();
+    // (a printed `inf` / `NaN` reads as a name; such texts are not judged)
+    if text.contains("inf") || text.contains("NaN") {
+        return Ok(());
+    }
+    let SpecResult::Ok(tree) = spec::read(&text, t, LitKind::Number) else { return Ok(()) };
+    let (mut mb, mut mu, mut yb, mut yu): (BTreeSet<String>, BTreeSet<String>, BTreeSet<String>, BTreeSet<String>) = Default::default();
+    crate::c03::must_may(&tree, t, &mut mb, &mut mu, &mut yb, &mut yu);
+    let mall: BTreeSet<String> = mb.union(&mu).cloned().collect();
+    let yall: BTreeSet<String> = yb.union(&yu).cloned().collect();
+    let (b, u, o) = e.reprs();
+    crate::c03::listing_ok("binary_reprs", &b, &mb, &yb).map_err(|m| format!("{m} (printed form {text:?})"))?;
+    crate::c03::listing_ok("unary_reprs", &u, &mu, &yu).map_err(|m| format!("{m} (printed form {text:?})"))?;
+    crate::c03::listing_ok("operator_reprs", &o, &mall, &yall).map_err(|m| format!("{m} (printed form {text:?})"))?;
+    Ok(())
+}
 fn union(a: &[String], b: &[String]) -> Vec<String> {
     let mut v: Vec<String> = a.iter().chain(b.iter()).cloned().collect();
     v.sort();
@@ -168,9 +187,9 @@ impl Derive {
             None => RefSt { tree: tree.clone(), declared },
         }
     }
-    fn base_lib(&self, i: usize, deep: bool) -> Result<Ex<Fe>, String> {
+    fn base_lib(&self, i: usize, form: u8) -> Result<Ex<Fe>, String> {
         let (text, _, d) = &self.bases[i];
-        let e = Ex::<Fe>::parse(text, deep).map_err(|e| format!("base rejected: {}", e.msg()))?;
+        let e = Ex::<Fe>::parse_form(text, form).map_err(|e| format!("base rejected: {}", e.msg()))?;
         match d {
             Some(k) => e.partial(*k).map_err(|e| format!("derivative of the base failed: {}", e.msg())),
             None => Ok(e),
@@ -284,7 +303,7 @@ impl Derive {
             }
         };
         match a {
-            DAct::Init(i, deep) => format!("{}::parse({:?}){}", if *deep { "DeepEx" } else { "FlatEx" }, self.bases[*i].0, self.bases[*i].2.map(|k| format!(".partial({k})")).unwrap_or_default()),
+            DAct::Init(i, form) => format!("{}({:?}){}", ["FlatEx::parse", "DeepEx::parse", "FlatEx::parse_wo_compile"][*form as usize], self.bases[*i].0, self.bases[*i].2.map(|k| format!(".partial({k})")).unwrap_or_default()),
             DAct::Partial(i) => format!("partial({i}) [d/d{}]", name(i)),
             DAct::Nth(i, n) => format!("partial_nth({i}, {n}) [d/d{}]", name(i)),
             DAct::Convert => "convert to the other form".into(),
@@ -317,7 +336,16 @@ impl Derive {
 impl Hist for Derive {
     type Act = DAct;
     fn roots(&self) -> Vec<Vec<DAct>> {
-        (0..self.bases.len()).flat_map(|i| [vec![DAct::Init(i, false)], vec![DAct::Init(i, true)]]).collect()
+        // (the uncompiled form only differs where a literal meets an operator before any variable does)
+        (0..self.bases.len())
+            .flat_map(|i| {
+                let mut v = vec![vec![DAct::Init(i, 0)], vec![DAct::Init(i, 1)]];
+                if self.bases[i].0.contains(|c: char| c.is_ascii_digit()) {
+                    v.push(vec![DAct::Init(i, 2)]);
+                }
+                v
+            })
+            .collect()
     }
     fn enabled(&self, hist: &[DAct], out: &mut Vec<DAct>) {
         // (variable lists can shrink at a substitution; `run` marks such states terminal if the
@@ -344,8 +372,8 @@ impl Hist for Derive {
         for k in 0..self.uns.len() {
             out.push(DAct::Un(k));
         }
-        let DAct::Init(_, deep0) = &hist[0] else { unreachable!() };
-        let deep_now = *deep0 ^ (hist.iter().filter(|a| matches!(a, DAct::Convert)).count() % 2 == 1);
+        let DAct::Init(_, form0) = &hist[0] else { unreachable!() };
+        let deep_now = (*form0 == 1) ^ (hist.iter().filter(|a| matches!(a, DAct::Convert)).count() % 2 == 1);
         if deep_now {
             out.push(DAct::NegOp);
             for k in 0..HELPERS.len() {
@@ -396,9 +424,9 @@ impl Hist for Derive {
     }
     fn run(&self, hist: &[DAct]) -> Outcome {
         let mut out = Outcome { key: String::new(), bad: vec![], terminal: false, steps: 0 };
-        let DAct::Init(i0, deep) = &hist[0] else { unreachable!() };
-        let form = if *deep { "deep" } else { "flat" };
-        let mut cur = match self.base_lib(*i0, *deep) {
+        let DAct::Init(i0, form0) = &hist[0] else { unreachable!() };
+        let form = ["flat", "deep", "flat-uncompiled"][*form0 as usize];
+        let mut cur = match self.base_lib(*i0, *form0) {
             Ok(e) => e,
             Err(m) => {
                 out.bad.push((format!("{form}:parse"), m));
@@ -438,6 +466,17 @@ impl Hist for Derive {
                 out.terminal = true;
                 out.key = format!("names|{}", self.describe(hist));
                 return out;
+            }
+            // operator listings of every expression a history of the conversion check ends in:
+            // sorted, duplicate-free, nothing that is absent from the expression's own printed
+            // text, every operator the printed text applies to a variable-dependent operand
+            if self.focus == Focus::Convert && pos == last {
+                if let Err(m) = listing_check(&next, &self.table) {
+                    out.bad.push((format!("{form}:{kind}:operator-listing"), format!("{}: {m}", self.describe(hist))));
+                    out.terminal = true;
+                    out.key = format!("listing|{}", self.describe(hist));
+                    return out;
+                }
             }
             let exact_names = names == upper.declared;
             let upper_declared = upper.declared.clone();
